@@ -241,14 +241,25 @@ def check_edgelist(g, m, where, after):
     compare_all(g2, m2, pairs, where + " [rebuilt from edge list]", [after + "+edgelist"])
 
 
+# frame names are arbitrary hashables: plain strings, strings including the empty one, or integers including 0
+NAME_SCHEMES = {
+    "str": (BASE, NAMES),
+    "empty": (BASE, ["", "b", "c", "d", "e", "f", "g"]),
+    "int": (0, [1, 2, 3, 4, 5, 6, 7]),
+    "int_child0": (100, [0, 2, 3, 4, 5, 6, 7]),
+}
+_SCHEME = {"base": BASE, "names": NAMES}
+
+
 def name_of(i):
-    return BASE if i < 0 else NAMES[i % len(NAMES)]
+    return _SCHEME["base"] if i < 0 else _SCHEME["names"][i % len(_SCHEME["names"])]
 
 
 @body("C09.history")
 def b_history(case, ctx):
-    g = SceneGraph(base_frame=BASE)
-    m = Model(BASE)
+    _SCHEME["base"], _SCHEME["names"] = NAME_SCHEMES[case.get("names", "str")]
+    g = SceneGraph(base_frame=_SCHEME["base"])
+    m = Model(_SCHEME["base"])
     kinds = []
     queried = False
     mutated_after_query = False
@@ -396,7 +407,7 @@ def b_history(case, ctx):
                 v = x.get("q") or x.get("axis")
                 if abs(math.sqrt(sum(c * c for c in v)) - 1.0) > 1e-3:
                     cls.append("update:non_unit_" + x["kind"])
-    ctx.note(nontrivial=nontrivial, cls=sorted(set(cls)) or ["empty"])
+    ctx.note(nontrivial=nontrivial, cls=(sorted(set(cls)) or ["empty"]) + ["names:" + case.get("names", "str")])
 
 
 # ------------------------------------------------------------------------ strategy
@@ -460,7 +471,7 @@ def history(draw, max_ops=14):
             ops.append(["copy", full])
         else:
             ops.append(["edgelist", full])
-    return {"ops": ops}
+    return {"ops": ops, "names": draw(st.sampled_from(["str", "str", "empty", "int", "int_child0"]))}
 
 
 @subcheck("C09", "history", shards={"quick": 12, "thorough": 16})
@@ -496,7 +507,7 @@ def _depth2():
                             ops.append(["remove", o[1], True])
                         else:
                             ops.append(["base", o[1], True])
-                    seq.append({"ops": ops})
+                    seq.append({"ops": ops, "names": ["str", "empty", "int", "int_child0"][len(seq) % 4]})
     return seq
 
 
@@ -510,4 +521,4 @@ def s_enum(ctx):
         ctx.enumerate("C09.history", cases, label="structural_histories_len6_over_3_names")
 
 
-REQUIRED_CLASSES["C09"] = ["update:reparent", "remove_node", "update:edge_change", "copy", "base_frame", "update:non_unit_quaternion", "update:non_unit_axis_angle", "update:callers_buffer_reused", "update:edge_change:nudge"]
+REQUIRED_CLASSES["C09"] = ["update:reparent", "remove_node", "update:edge_change", "copy", "base_frame", "update:non_unit_quaternion", "update:non_unit_axis_angle", "update:callers_buffer_reused", "update:edge_change:nudge", "names:empty", "names:int", "names:int_child0"]
